@@ -1475,7 +1475,8 @@ class Interp:
             self.bind(pat["elems"][0], v.args[0], env2)
             return self.block(e["then"], env2)
         st_ = e["then"]["stmts"]
-        simple = bool(st_) and st_[-1]["k"] == "expr" and st_[-1]["expr"]["k"] == "return" and not _has_kind(st_[:-1], ("if", "match", "return", "for", "while", "loop"))
+        simple = bool(st_) and st_[-1]["k"] == "expr" and st_[-1]["expr"]["k"] == "return" and not _has_kind(st_[:-1], ("if", "match", "return", "for", "while", "loop")) \
+            and not _has_mutation(e["then"])          # a body that mutates state is executed on its own path (fork on is_some)
         if not simple:
             # general shape: fork the path on `is_some(v)`
             if not self.decide(VOpaque("is_some", [v])):
